@@ -244,9 +244,21 @@ fn stream_case(ctx: &mut Ctx, case: &Json) {
         for (i, &v) in values.iter().enumerate() {
             d.update(v);
             all.push(v);
+            if rng.chance(0.002) {
+                // NaN and the infinities are ignored: they change nothing, not even min / max
+                d.update(*rng.pick(&[f64::NAN, f64::INFINITY, f64::NEG_INFINITY]));
+                ctx.cover("nonfinite_offered");
+            }
             if i + 1 == next_check {
                 let ex = Exact::new(all.clone());
-                check_digest(ctx, &mut d, &ex, &shape, &format!("streamed, after {} updates", i + 1));
+                if rng.chance(0.5) {
+                    // a copy taken mid-stream (values may still be buffered) is the same digest
+                    let mut c = d.clone();
+                    check_digest(ctx, &mut c, &ex, &shape, &format!("clone of the streamed digest after {} updates", i + 1));
+                    ctx.cover("clone_mid_stream");
+                } else {
+                    check_digest(ctx, &mut d, &ex, &shape, &format!("streamed, after {} updates", i + 1));
+                }
                 next_check = (next_check * 4).max(next_check + 1);
             }
         }
